@@ -279,6 +279,15 @@ func (g *healGoal) each(round int) bool {
 func RunCase(opt Options, sink Sink, traceOn bool) (res Result) {
 	s := NewSim(opt, sink)
 	s.traceOn = traceOn
+	// real log stores (Options.RealStore) hold memory and goroutines: closed with the case
+	defer func() {
+		for _, r := range s.replicas {
+			if r.store != nil && r.store.real != nil {
+				_ = r.store.real.Close()
+				r.store.real = nil
+			}
+		}
+	}()
 	res.Flags = s.mon.flags
 	defer func() {
 		if x := recover(); x != nil {
